@@ -21,7 +21,7 @@ fn vrp(v: &str) -> (packet::IpNet, u8, u32) {
     match v {
         "v1" => (packet::IpNet::new("10.0.0.0".parse().unwrap(), 8), 24, 64501),
         "v2" => (packet::IpNet::new("2001:db8::".parse().unwrap(), 32), 48, 64502),
-        "v3" => (packet::IpNet::new("10.1.0.0".parse().unwrap(), 16), 16, 0),
+        "v3" => (packet::IpNet::new("10.0.0.0".parse().unwrap(), 8), 16, 0), // same prefix as v1: one trie entry, two VRPs
         x => panic!("harness: vrp {x}"),
     }
 }
